@@ -103,6 +103,7 @@ type gen struct {
 	cellParams       map[string]bool
 	retSetsCounted   bool
 	ghostSetArgs     []Val // arguments of the call the ghost assignments being applied are anchored at
+	ghostSetBefore   bool  // applying the `before call` assignments (true) or the `after call` ones (false)
 	pointAssertsApplied int
 	// freshRefs: reference terms known (syntactically) to denote objects allocated during this execution;
 	// writtenOld: components with a write that is not known to hit such an object only
